@@ -95,6 +95,10 @@ def live_entry(a):
     return _entry(a.name, list(a.alias), a.properties.get("backend_name"), [])
 
 
+def live_entry_full(a):
+    return _entry(a.name, list(a.alias), a.properties.get("backend_name"), _props(a.properties))
+
+
 # ------------------------------------------------------------------ helpers
 def position(obj, lst):
     for i, a in enumerate(lst):
@@ -315,29 +319,54 @@ def db_part(run, rng, thorough, workdir, env):
     def names():
         return [a.name for a in L]
 
-    def name_of(fn, q):
+    NOTFOUND = "<not found>"
+
+    def lookup(fn, q):
+        """-> (adsorbate name or NOTFOUND, backend link of the object found)"""
         try:
             obj = fn(q)
         except Exception as e:
-            return "<refused:" + exc_class(e) + ">"
-        return obj.name if any(obj is a for a in L) else "<unregistered object>"
+            return (NOTFOUND if exc_class(e) == "ParameterError" else "<exception:" + exc_class(e) + ">"), ""
+        if not any(obj is a for a in L):
+            return NOTFOUND, ""            # an isotherm quietly linked to a blank, unregistered adsorbate
+        return obj.name, str(obj.properties.get("backend_name") or "")
 
-    sites = [("Adsorbate.find", Adsorbate.find),
-             ("BaseIsotherm.adsorbate", lambda q: BaseIsotherm(material="m", adsorbate=q, temperature=300, **UNITS).adsorbate),
-             ("PointIsotherm.adsorbate", lambda q: PointIsotherm(pressure=[1.0, 2.0], loading=[1.0, 2.0], material="m", adsorbate=q, temperature=300, **UNITS).adsorbate)]
+    iso_sites = [("BaseIsotherm.adsorbate", lambda q: BaseIsotherm(material="m", adsorbate=q, temperature=300, **UNITS).adsorbate),
+                 ("PointIsotherm.adsorbate", lambda q: PointIsotherm(pressure=[1.0, 2.0], loading=[1.0, 2.0], material="m", adsorbate=q, temperature=300, **UNITS).adsorbate)]
+    all_strings = sorted(STRINGS_REF)
 
-    def sweep(strs):
+    def sweep(focus, variant_of):
+        """Adsorbate.find over EVERY shipped string (one case variant each) and the user strings; the isotherm link for the focus strings."""
         out = {}
-        for s in strs:
-            q = rng.choice(list(VARIANT_FN.values()))(s)
-            for site, fn in sites:
-                out[(site, s)] = (q, name_of(fn, q))
+        for s in all_strings + [x for x in focus if x not in STRINGS_REF]:
+            out[("Adsorbate.find", s)] = (variant_of[s],) + lookup(Adsorbate.find, variant_of[s])
+        for s in focus:
+            for site, fn in iso_sites:
+                out[(site, s)] = (variant_of[s],) + lookup(fn, variant_of[s])
         return out
 
-    nitrogen, argon = Adsorbate.find("nitrogen"), Adsorbate.find("argon")
+    nitrogen, argon, co2 = Adsorbate.find("nitrogen"), Adsorbate.find("argon"), Adsorbate.find("carbon dioxide")
     user = Adsorbate("zzuser", alias=["zzalias"], molar_mass=10.0)
     user2 = Adsorbate("zzuser", alias=["zzalias", "zzother"], molar_mass=11.0)
     absent = Adsorbate("zzabsent", alias=["zzghost"])
+    # an EMPTY user database with the pyGAPS schema (the documented way: pragmas + isotherm type)
+    from pygaps.utilities.sqlite_db_pragmas import PRAGMAS
+    from pygaps.utilities.sqlite_utilities import db_execute_general
+    db2 = os.path.join(workdir, "user.db")
+    for pragma in PRAGMAS:
+        db_execute_general(pragma, db2)
+    con = sqlite3.connect(db2)
+    try:
+        con.execute("INSERT INTO isotherm_type (type) VALUES ('isotherm')")
+        con.commit()
+    finally:
+        con.close()
+    loaded = {}
+
+    def from_db():
+        for a in sq.adsorbates_from_db(db_path=db2, verbose=False):
+            loaded[a.name] = a
+
     ops = [("delete", nitrogen, lambda: sq.adsorbate_delete_db(nitrogen, db_path=db, verbose=False)),          # refused: referenced
            ("delete", nitrogen, lambda: sq.adsorbate_delete_db("nitrogen", db_path=db, verbose=False)),        # by name, refused
            ("delete", absent, lambda: sq.adsorbate_delete_db(absent, db_path=db, verbose=False)),              # refused: not in the file
@@ -348,14 +377,29 @@ def db_part(run, rng, thorough, workdir, env):
            ("to_db_overwrite", absent, lambda: sq.adsorbate_to_db(absent, db_path=db, overwrite=True, verbose=False)),  # refused
            ("delete", user2, lambda: sq.adsorbate_delete_db(user2, db_path=db, verbose=False)),                # ok
            ("delete", user2, lambda: sq.adsorbate_delete_db(user2, db_path=db, verbose=False)),                # refused: gone
-           ("delete", argon, lambda: sq.adsorbate_delete_db(argon, db_path=db, verbose=False))]                # ok: unreferenced shipped one (in the COPY)
-    strs = sorted(set(live_entry(nitrogen)["alias"] + live_entry(argon)["alias"] + ["zzuser", "zzalias", "zzother", "zzabsent", "zzghost"]
-                      + rng.sample(sorted(STRINGS_REF), 6)))
+           # --- successful operations on an empty user database, shipped adsorbates
+           ("to_db", nitrogen, lambda: sq.isotherm_to_db(BaseIsotherm(material="zzcarbon", adsorbate="N2", temperature=77, **UNITS), db_path=db2, verbose=False)),  # auto-insert
+           ("to_db", co2, lambda: sq.adsorbate_to_db(co2, db_path=db2, verbose=False)),                         # ok
+           ("to_db", co2, lambda: sq.adsorbate_to_db(co2, db_path=db2, verbose=False)),                         # refused: already there
+           ("from_db", co2, from_db),                                                                            # pure read
+           ("to_db_overwrite", co2, lambda: sq.adsorbate_to_db(co2, db_path=db2, overwrite=True, verbose=False)),  # ok
+           ("to_db", user, lambda: sq.adsorbate_to_db(user, db_path=db2, verbose=False)),                       # ok (user adsorbate)
+           ("from_db", user, from_db),
+           ("delete", user, lambda: sq.adsorbate_delete_db(user, db_path=db2, verbose=False)),                 # ok
+           ("to_db", argon, lambda: sq.adsorbate_to_db(argon, db_path=db2, verbose=False)),                     # ok
+           ("delete", argon, lambda: sq.adsorbate_delete_db(argon, db_path=db, verbose=False))]                # ok: unreferenced shipped one (in the COPY of default.db)
+    focus = sorted(set(live_entry(nitrogen)["alias"] + live_entry(argon)["alias"] + live_entry(co2)["alias"]
+                       + ["zzuser", "zzalias", "zzother", "zzabsent", "zzghost"] + rng.sample(all_strings, 6)))
     recs = []
     saved = list(L)
+    saved_alias = {id(a): (a, list(a.alias)) for a in L}
+    saved_mats = list(pygaps.MATERIAL_LIST)
+    originals = {a.name: live_entry_full(a) for a in (nitrogen, co2, argon, user)}
     try:
         for op, ads, fn in ops:
-            pre, before = names(), sweep(strs)
+            variant_of = {s: rng.choice(list(VARIANT_FN.values()))(s) for s in set(all_strings) | set(focus)}
+            entry_before = live_entry(ads)
+            pre, before = names(), sweep(focus, variant_of)
             try:
                 fn()
                 outcome = "ok"
@@ -363,28 +407,42 @@ def db_part(run, rng, thorough, workdir, env):
                 outcome = "refused"
                 if exc_class(e) not in ("ParsingError",):
                     run.note(f"db operation {op} {ads.name} refused with {exc_class(e)}")
-            after = sweep(strs)
-            recs.append({"k": "dbop", "op": op, "name": ads.name, "outcome": outcome, "e": live_entry(ads), "pre": pre, "post": names(),
-                         "sweep": [{"site": site, "s": s, "query": before[(site, s)][0], "before": before[(site, s)][1], "after": after[(site, s)][1]}
+            after = sweep(focus, variant_of)
+            recs.append({"k": "dbop", "op": op, "name": ads.name, "outcome": outcome, "e": entry_before, "pre": pre, "post": names(),
+                         "sweep": [{"site": site, "s": s, "query": before[(site, s)][0], "before": before[(site, s)][1], "after": after[(site, s)][1],
+                                    "before_backend": before[(site, s)][2], "after_backend": after[(site, s)][2]}
                                    for (site, s) in sorted(before)]})
             run.count(("dbop", op, ads.name, outcome, len(recs)), n=len(before))
     finally:
         L[:] = saved
-    expected = ["refused", "refused", "refused", "ok", "refused", "refused", "ok", "refused", "ok", "refused", "ok"]
+        for a, al in saved_alias.values():
+            a.alias[:] = al
+        pygaps.MATERIAL_LIST[:] = saved_mats
+    expected = ["refused", "refused", "refused", "ok", "refused", "refused", "ok", "refused", "ok", "refused",
+                "ok", "ok", "refused", "ok", "ok", "ok", "ok", "ok", "ok", "ok"]
     got = [r["outcome"] for r in recs]
     if got != expected:
         run.note(f"db operations: outcomes {got} differ from the scripted expectation {expected} (not judged here: C08/C09)")
-    if got[0] != "refused":
-        raise MachineryError("the scratch database did not refuse deleting a referenced adsorbate: the history is not the intended one")
-    answers = tlc.oracle("RegistryOracle", recs, env=env, timeout=600)
+    if got[0] != "refused" or got[10] != "ok" or got[11] != "ok":
+        raise MachineryError(f"the scripted database history did not run as intended: {got}")
+    # what came back from the user database answers to the same strings as what was uploaded
+    rt = [{"k": "roundtrip", "a": originals[n], "b": live_entry_full(x)} for n, x in sorted(loaded.items()) if n in originals]
+    answers = tlc.oracle("RegistryOracle", recs + rt, env=env, timeout=600)
+    for q, a in zip(rt, answers[len(recs):]):
+        run.count(("roundtrip", q["a"]["name"]))
+        if a["diff"] not in ("same", "properties"):
+            run.violation({"site": "sqlite.adsorbate_to_db + adsorbates_from_db", "observed": "adsorbate read back differs", "what": a["diff"]},
+                          {"uploaded": q["a"], "read_back": q["b"]})
+    if not rt:
+        raise MachineryError("nothing was read back from the user database")
     for r, a in zip(recs, answers):
-        cls = {"site": "sqlite." + ("adsorbate_delete_db" if r["op"] == "delete" else "adsorbate_to_db"), "outcome": r["outcome"]}
+        cls = {"site": "sqlite." + {"delete": "adsorbate_delete_db", "from_db": "adsorbates_from_db"}.get(r["op"], "adsorbate_to_db"), "outcome": r["outcome"]}
         if not a["ok"] or not a["shipped_prefix_kept"]:
             run.violation({**cls, "observed": "registry changed by a refused operation" if r["outcome"] == "refused" else "registry step not allowed"},
                           {"op": r["op"], "name": r["name"], "pre_tail": r["pre"][-3:], "post_tail": r["post"][-3:], "len": [len(r["pre"]), len(r["post"])]})
         if a["lookups_changed"]:
             x = a["lookups_changed"][0]
-            run.violation({**cls, "observed": "lookups changed" + (" by a refused operation" if r["outcome"] == "refused" else " for names the operation does not concern"),
+            run.violation({**cls, "observed": "lookups changed" + (" by a refused operation" if r["outcome"] == "refused" else " in a way the operation does not allow"),
                            "lookup_site": x["site"]}, {"op": r["op"], "name": r["name"], "changed": a["lookups_changed"][:6]})
     run.add("traces_validated_against_impl", len(recs))
     run.set(db_operations=len(recs))
